@@ -2,6 +2,7 @@ import WfProofs.LifecycleSafe
 import WfModel.GenLifecycleShape
 import WfProofs.LifecycleRow
 import WfProofs.LifecycleCoarse
+import WfProofs.LifecycleTicks
 import WfProps.C03
 /-!
 # C26 — idle release and resume never lose an event or double-run a workflow
@@ -322,3 +323,61 @@ state — the tick is stranded.  Whether DBOS keeps such a message for the next 
 outside what can be checked here. -/
 theorem C26_dbos_check_then_send_window :
     (brun {} [.create, .uSpawn 1, .uTry 1, .rSpawn 0, .rBegin 0, .rSend 0, .wfStep, .uSend 1]).stranded = [1] := by decide
+
+/-- **DBOS protocol, tick accounting** (machine B; any number of releasers, senders / resumers, releaser crashes anywhere):
+along every schedule (a) the ticks reduced by the run, the ticks in the workflow's mailbox and the stranded ticks are pairwise
+distinct — no tick is reduced twice, by whichever incarnation; (b) a tick is in one of these three places **iff** its sender has
+finished (`uSend` delivered it, or `uFinish` folded it into the rebuilt state) — nothing an accepted send handed over
+disappears, nothing appears from nowhere; (c) so if nothing is stranded every finished send is reduced or still in the
+mailbox, and (d) a tick at the head of the mailbox of a running workflow is consumed by the workflow's next step.
+The harness checks the same accounting on the real `DBOSIdleReleaseDecorator` under latency (`C26/dbos_event_never_processed:*`,
+where `stranded` is what the windows of `C26_dbos_stranding_only_in_windows` lose). -/
+theorem C26_dbos_tick_accounting (acts : List BAct) :
+    let s := brun {} acts
+    (s.processed ++ (inboxTicks s.inbox ++ s.stranded)).Nodup ∧
+    (∀ k, s.res k = .done ↔ (k ∈ s.processed ∨ Msg.tick k ∈ s.inbox ∨ k ∈ s.stranded)) ∧
+    (s.stranded = [] → ∀ k, s.res k = .done → (k ∈ s.processed ∨ Msg.tick k ∈ s.inbox)) ∧
+    (∀ t m, s.wfUp = true → s.inbox = .tick t :: m →
+      (bstepD s .wfStep).processed = s.processed ++ [t] ∧ (bstepD s .wfStep).inbox = m) := by
+  intro s
+  have h : TickAcc s := TickAcc.run acts {} TickAcc.init
+  have hiff : ∀ k, s.res k = .done ↔ (k ∈ s.processed ∨ Msg.tick k ∈ s.inbox ∨ k ∈ s.stranded) := by
+    intro k
+    rw [← h.done_iff k]
+    simp [Sys.places, mem_inboxTicks]
+  refine ⟨h.nodup, hiff, ?_, ?_⟩
+  · intro he k hk
+    rcases (hiff k).1 hk with h1 | h1 | h1
+    · exact Or.inl h1
+    · exact Or.inr h1
+    · rw [he] at h1; cases h1
+  · intro t m hup hin
+    simp [bstepD, bstep, hup, hin]
+
+/-- non-vacuity: a tick delivered to the running workflow, a release, a resume that folds the reloading tick in: both ticks
+are reduced exactly once, nothing is stranded -/
+example :
+    let s := brun {} [.create, .uSpawn 0, .uTry 0, .uSend 0, .wfStep, .rSpawn 0, .rBegin 0, .rSend 0, .wfStep, .rComplete 0,
+                      .uSpawn 1, .uTry 1, .uFinish 1, .wfStep]
+    s.processed = [0, 1] ∧ s.stranded = [] ∧ s.res 0 = .done ∧ s.res 1 = .done ∧ s.wfUp = true ∧ s.wfInc = 1 := by
+  decide
+
+/-- **the only ways the DBOS protocol strands a tick** are the two check-then-send windows: (release side) a sender that was
+told `active` delivers after TickIdleRelease has ended the workflow; (resume side) the resumer finds client ticks left in the
+exited workflow's mailbox (sent while the row already said `active` again, or queued behind TickIdleRelease) and purges them.
+Every other action of every schedule leaves `stranded` alone.  Both windows are exhibited on the real decorator by the
+harness (`…:tick_arrived_during_release`, `…:tick_sent_during_resume`; model witness of the first:
+`C26_dbos_check_then_send_window`). -/
+theorem C26_dbos_stranding_only_in_windows (s s' : Sys) (a : BAct) (h : bstep s a = some s') (hne : s'.stranded ≠ s.stranded) :
+    (∃ k, a = .uSend k ∧ s.res k = .pass ∧ s.wfUp = false ∧ s'.stranded = s.stranded ++ [k]) ∨
+    (∃ k, a = .uFinish k ∧ s.res k = .owner ∧ s.wfUp = false ∧ inboxTicks s.inbox ≠ [] ∧
+      s'.stranded = s.stranded ++ inboxTicks s.inbox) :=
+  stranded_only_in_windows s s' a h hne
+
+/-- non-vacuity of the resume-side window: sender 1 owns the resume (row `active` again), sender 2 is told `active` and
+delivers to the exited workflow, sender 1's `_do_resume` purges it -/
+example :
+    let s := brun {} [.create, .rSpawn 0, .rBegin 0, .rSend 0, .wfStep, .rComplete 0, .uSpawn 1, .uTry 1, .uSpawn 2, .uTry 2, .uSend 2]
+    s.res 1 = .owner ∧ s.res 2 = .done ∧ s.wfUp = false ∧ s.stranded = [2] ∧
+      (brun s [.uFinish 1, .wfStep]).processed = [1] ∧ (brun s [.uFinish 1, .wfStep]).stranded = [2] := by
+  decide
